@@ -21,7 +21,7 @@ from ..gen import problems as G
 PID = "C11"
 RULE = (
     "RuleBasedStateMachine: a pool of 2-4 generated problems (different zone names and sizes) and a history of up to 6 (thorough 10) calls: "
-    "pinch_analysis_service with the pool's dict, with a validated model built once and reused, with a fresh model; PinchProblem load / "
+    "pinch_analysis_service with the pool's dict, with a dict whose lists hold schema instances, with a validated model built once and reused, with a fresh model (some problems carry a user zone tree in non-canonical spelling); PinchProblem load / "
     "target / target again / export. The driver process imports OpenPinch but never calls it. The whole history runs in one forked child; "
     "the expected result of call k comes from a one-shot child forked from the same pristine driver that executes only that call. "
     "invariants after every call: result dump (targets, utilities, graph keys and points, or exception type and message) identical to the "
@@ -152,6 +152,17 @@ class Runner:
                 inp = self.pool[op["i"]]
                 snap = copy.deepcopy(inp)
                 res = pinch_analysis_service(inp, "Site")
+            elif kind == "service_dict_of_models":
+                from OpenPinch.lib.schema import StreamSchema, UtilitySchema
+
+                if ("dm", op["i"]) not in self.models:
+                    src = copy.deepcopy(self.pool[op["i"]])
+                    src["streams"] = [StreamSchema.model_validate(x) for x in src["streams"]]
+                    src["utilities"] = [UtilitySchema.model_validate(x) for x in src["utilities"]]
+                    self.models[("dm", op["i"])] = src
+                inp = self.models[("dm", op["i"])]
+                snap = _input_now(inp)
+                res = pinch_analysis_service(inp, "Site")
             elif kind == "service_model":
                 inp = self.model(op["i"])
                 snap = inp.model_dump()
@@ -188,7 +199,13 @@ class Runner:
 
 
 def _input_now(inp):
-    return inp.model_dump() if hasattr(inp, "model_dump") else copy.deepcopy(inp)
+    if hasattr(inp, "model_dump"):
+        return inp.model_dump()
+    if isinstance(inp, dict):
+        return {k: _input_now(v) for k, v in inp.items()}
+    if isinstance(inp, list):
+        return [_input_now(v) for v in inp]
+    return copy.deepcopy(inp)
 
 
 def history_child(pool, ops):
@@ -293,7 +310,9 @@ def finalize_history(out, init, ops):
     for o in ops:
         out.labels.add("op:" + o["op"])
     reused = sum(1 for o in ops if o["op"] == "service_model")
-    models = [o["i"] for o in ops if o["op"] == "service_model"]
+    models = [(o["op"], o["i"]) for o in ops if o["op"] in ("service_model", "service_dict_of_models")]
+    if any("zone_tree" in p for p in init["pool"]):
+        out.labels.add("pool-has-user-zone-tree")
     if len(models) != len(set(models)):
         out.labels.add("model-object-reused")
     out.nontrivial = (len(ops) >= 2 and len(idx) >= 2) or len(models) != len(set(models))
@@ -316,6 +335,12 @@ def pool_strategy(draw):
         p = {"streams": ss, "utilities": us}
         if draw(st.integers(0, 3)) == 0:
             p["options"] = draw(st.sampled_from([{"DO_VERTICAL_GCC": True}, {"DO_BALANCED_CC": False}, {"DT_CONT": 10.0}, {"DO_AREA_TARGETING": True, "DT_CONT": 5.0}]))
+        if all("/" not in z for z in zones) and draw(st.integers(0, 2)) == 0:
+            # a user zone tree in its non-canonical spelling (alias types), optionally with a stream labelled with the root name
+            alias = draw(st.sampled_from(["Zone", "Process Zone", "Sub-Zone"]))
+            p["zone_tree"] = {"name": "Site", "type": draw(st.sampled_from(["Site", "Zone"])), "children": [{"name": z, "type": alias, "children": None} for z in zones]}
+            if draw(st.booleans()):
+                ss[0]["zone"] = "Site"
         pool.append(p)
     return pool
 
@@ -340,6 +365,10 @@ def machine(col, tier):
         @rule(i=st.integers(0, 3))
         def service_model(self, i):
             self._add({"op": "service_model", "i": i % self.n})
+
+        @rule(i=st.integers(0, 3))
+        def service_dict_of_models(self, i):
+            self._add({"op": "service_dict_of_models", "i": i % self.n})
 
         @rule(i=st.integers(0, 3))
         def service_fresh_model(self, i):
@@ -413,4 +442,4 @@ PARTS = [
     Part("histories", evaluate, {"quick": 240, "thorough": 5000}, machine=machine, steps={"quick": 6, "thorough": 10}, min_nontrivial={"quick": 60, "thorough": 1500}),
     Part("fresh_interpreter", eval_fresh, {"quick": 4, "thorough": 48}, strategy=lambda tier: G.problem(min_streams=2, max_streams=6, thirds=False), min_nontrivial={"quick": 2, "thorough": 20}),
 ]
-MIN_SHARE = {"histories": {"model-object-reused": 0.1, "op:pp_export": 0.03, "op:service_dict": 0.3}}
+MIN_SHARE = {"histories": {"model-object-reused": 0.1, "op:pp_export": 0.03, "op:service_dict": 0.15, "pool-has-user-zone-tree": 0.2}}
